@@ -181,7 +181,8 @@ def b_sec(kid, tag, usage, kind, cipher, halg):
 
 
 def b_elgamal(tag, secret, usage):
-    p, g, y, x = (1 << 1023) + 1155, 5, (1 << 1000) + 12345, (1 << 200) + 77
+    p, g, x = (1 << 1023) + 1155, 5, (1 << 200) + 77
+    y = pow(g, x, p)       # the secret belongs to the public part, as in any key a producer writes (unprotect() checks it)
     pub = bytes([4]) + wire.u32(1400000000) + bytes([16]) + wire.mpi_encode(p) + wire.mpi_encode(g) + wire.mpi_encode(y)
     if not secret:
         return tag, pub
